@@ -246,7 +246,7 @@ PROPS["C20"] = {
 }
 
 PROPS["C09"] = {
-    "kani": ["c09_text"],
+    "kani": ["c09_text", "c09_cellsize"],
     "verus": ["celllayout", "putcell", "utf8stream", "textlayout", "ttywriter", "imagecells"],
     "technique": "Verus contracts on the single layout routine Cell::layout, on TerminalWriter::put_cell over the ghost window model of surfaces shared with C07 (frame condition), and on the streaming Utf8Decoder::decode against a byte-wise fold with chunk-independence lemmas; all extracted from the real code",
     "level_text": "Proved (Verus, every cell size, width, wrap mode, cursor and tracked size): Cell::layout keeps the writer invariant cursor.col <= max_width and size.width <= max_width, the tracked size is a "
@@ -274,7 +274,7 @@ PROPS["C09"] = {
         "put_cell: SurfaceMutView::{shape,size,get_mut,data_mut} are specified by the contracts that unit surface proves for the Surface/SurfaceMut default methods (get_mut added there); the forwarding impls for SurfaceMutView are trusted",
         "derived PartialEq on Position (`cursor_start != self.cursor`) has no specification in Verus: both outcomes are covered",
         "utf8stream: UTF8DFA is an abstract DFA with the layering/length axiom; source is io::Cursor<&[u8]> by contract; utf8_decode is 'a function of the bytes' here (its own contract is proved in unit numdec)",
-        "write: characters are at most one row high (char_cell_small, stated about the uninterpreted Cell::size) and cursor.row + buf.len() stays below 2^24; the io::Cursor is the ByteCursor stand-in (N6); "
+        "write: characters are at most one row high (char_cell_small, stated about the uninterpreted Cell::size; discharged for the real Cell::size by the complete Kani harness c09_char_cell_size: 1 row, <= 3 columns for every char) and cursor.row + buf.len() stays below 2^24; the io::Cursor is the ByteCursor stand-in (N6); "
         "that the cells written by two writes equal those of one write of the concatenation is NOT mechanised end to end (it follows from decode == run + the concat lemmas + permanence of 'out of space' by reading)",
         "Utf8CellWriter::write / TTYCellWriter::write loops, TerminalWritable, Text::{layout,render}: not under contract "
         "(a Kani harness for put_cell was built and withdrawn: overwriting a Cell runs the drop glue of CellKind, whose discriminant lives in the niche of `char`; CBMC unrolls the recursive drop of rasterize::Scene without end)",
